@@ -31,7 +31,20 @@ type PtrV struct {
 	Ty   types.Type // pointer type
 	Addr *Term      // heap address (Int) when dynamic
 	LV   *LVal      // static l-value when known
+	Nil  *Term      // for static pointers: the condition under which the pointer is nil instead (nil = never)
 }
+
+func (p *PtrV) nilCond() *Term {
+	if p.LV != nil {
+		if p.Nil == nil {
+			return tFalse
+		}
+		return p.Nil
+	}
+	return eq(p.Addr, intLit(0))
+}
+
+func isNilPtrConst(p *PtrV) bool { return p.LV == nil && p.Addr != nil && p.Addr == intLit(0) }
 type ArrayV struct {
 	Ty    types.Type
 	Elems []SV
@@ -204,8 +217,14 @@ func mergeSV(c *Term, a, b SV, t types.Type) SV {
 	if pa, ok := a.(*PtrV); ok {
 		pb := b.(*PtrV)
 		if pa.LV != nil || pb.LV != nil {
-			if pa.LV != nil && pb.LV != nil && sameLV(pa.LV, pb.LV) {
-				return pa
+			// result = if c then a else b
+			switch {
+			case pa.LV != nil && pb.LV != nil && sameLV(pa.LV, pb.LV):
+				return &PtrV{Ty: pa.Ty, LV: pa.LV, Nil: ite(c, pa.nilCond(), pb.nilCond())}
+			case pa.LV != nil && isNilPtrConst(pb):
+				return &PtrV{Ty: pa.Ty, LV: pa.LV, Nil: ite(c, pa.nilCond(), tTrue)}
+			case pb.LV != nil && isNilPtrConst(pa):
+				return &PtrV{Ty: pb.Ty, LV: pb.LV, Nil: ite(c, tTrue, pb.nilCond())}
 			}
 			panic("merge of distinct static pointers")
 		}
